@@ -202,7 +202,7 @@ class KeyType(StringType, prim='key'):
 
     def __lt__(self, other: 'KeyType') -> bool:  # type: ignore
         """
-        Keys are ordered as follows: edpk < sppk < p2pk
+        Keys are ordered as follows: edpk < sppk < p2pk < BLpk
         All keys are in compressed form in Tezos (flag | X) where flag specifies if Y is odd or even
         https://crypto.stackexchange.com/questions/70754/ec-key-compression
         For secp256r1 (aka p256) we need to cut the first byte (for unknown reason)
@@ -211,6 +211,7 @@ class KeyType(StringType, prim='key'):
             'edpk': (0, 0),
             'sppk': (1, 0),
             'p2pk': (2, 1),
+            'BLpk': (3, 0),
         }
         res = curves[self.prefix][0] - curves[other.prefix][0]
         if res < 0:
@@ -219,7 +220,8 @@ class KeyType(StringType, prim='key'):
             return False
         else:
             offset = curves[self.prefix][1]
-            return self.raw[offset:] < other.raw[offset:]
+            # the skipped byte only breaks ties, so that different keys never compare as equal
+            return (self.raw[offset:], self.raw) < (other.raw[offset:], other.raw)
 
     @classmethod
     def dummy(cls, context: AbstractContext) -> 'KeyType':
